@@ -10,7 +10,8 @@ Inductive cerr :=
 | CInvalidResponse (addr sub : N) | CTooLong (addr sub : N) | CCapacity.
 
 Record dev := {
-  d_mlen : nat;                     (* mailbox length *)
+  d_mlen : nat;                     (* length of the read (device -> master) mailbox *)
+  d_wlen : nat;                     (* length of the write (master -> device) mailbox *)
   d_pad : N;                        (* what the device leaves behind a short reply *)
   d_q : list (list N);              (* out mailbox queue *)
   d_per : list (list (list N));     (* replies to the requests still to come *)
@@ -31,16 +32,16 @@ Fixpoint drain (n : nat) (q : list (list N)) : list (list N) :=
 
 (* write the request; the device queues its replies *)
 Definition send (d : dev) (req : list N) : dev :=
-  {| d_mlen := d_mlen d; d_pad := d_pad d;
+  {| d_mlen := d_mlen d; d_wlen := d_wlen d; d_pad := d_pad d;
      d_q := drain 10 (d_q d) ++ hd [] (d_per d); d_per := tl (d_per d);
-     d_reqs := d_reqs d ++ [pad_to (d_mlen d) 0 req]; d_counter := next_counter (d_counter d) |}.
+     d_reqs := d_reqs d ++ [pad_to (d_wlen d) 0 req]; d_counter := next_counter (d_counter d) |}.
 
 (* wait_for_mailbox_response *)
 Definition recv (d : dev) : res cerr (list N * dev) :=
   match d_q d with
   | [] => Err CTimeout
   | r :: q => Ok (pad_to (d_mlen d) (d_pad d) r,
-                  {| d_mlen := d_mlen d; d_pad := d_pad d; d_q := q; d_per := d_per d; d_reqs := d_reqs d; d_counter := d_counter d |})
+                  {| d_mlen := d_mlen d; d_wlen := d_wlen d; d_pad := d_pad d; d_q := q; d_per := d_per d; d_reqs := d_reqs d; d_counter := d_counter d |})
   end.
 
 Definition ev (e : enum_def) (raw : N) : res cerr N :=
